@@ -24,6 +24,7 @@ import fusion
 import rasters
 
 SIDECARS = ('.aux.xml', '.msk', '.ovr')
+MBM = [100, 100]
 CONFIGS = [dict(model='gain', kernel=(1, 1)), dict(model='gain-blk-offset', kernel=(3, 3)), dict(model='gain-offset', kernel=(5, 5))]
 
 
@@ -55,7 +56,7 @@ def gen_history(run, i):
     style = rng.choice(['same-object', 'fresh-objects', 'cli', 'mixed'])
     names = ['out_a.tif', 'out_b.tif']
     for _ in range(rng.randint(1, 4)):
-        calls.append(dict(cfg=rng.randrange(3), out=rng.choice(names), param=rng.random() < 0.5,
+        calls.append(dict(cfg=rng.randrange(3), mbm=rng.randrange(2), out=rng.choice(names), param=rng.random() < 0.5,
                           overwrite=rng.random() < 0.4, as_str=rng.random() < 0.5,
                           via='cli' if style == 'cli' or (style == 'mixed' and rng.random() < 0.3) else 'api'))
     pre = rng.choice([[], ['out_a.tif'], ['out_a_PARAM.tif'], ['out_a.tif', 'out_a_PARAM.tif'], ['out_b.tif']])
@@ -72,7 +73,9 @@ def run(run: common.Run):
                 'files; non-trivial = a history with an existing output involved or more than one call; distinct by the history')
     tmp = run.tmpdir()
     rng0 = run.rng('inputs')
-    src, ref = rasters.pair_geometry(rng0, 'dyadic', 'auto', max_src=18, margin=(1, 2))
+    src, ref = rasters.pair_geometry(rng0, 'dyadic', 'auto', max_src=30, margin=(1, 2))
+    while src.w < 16 or src.h < 16:
+        src, ref = rasters.pair_geometry(rng0, 'dyadic', 'auto', max_src=30, margin=(1, 2))
     s = np.array([[[rng0.randint(20, 200) for _ in range(src.w)] for _ in range(src.h)]], float)
     r = np.array([[[rng0.randint(30, 150) for _ in range(ref.w)] for _ in range(ref.h)]], float)
     base = tmp / 'base'
@@ -87,18 +90,25 @@ def run(run: common.Run):
             corr, param = str(corr), (str(param) if param else None)
         cfg = CONFIGS[c['cfg']]
         rf.process(corr, Model(cfg['model']), cfg['kernel'], param_filename=param, overwrite=c['overwrite'], build_ovw=False,
-                   block_config=dict(threads=1, max_block_mem=100))
+                   block_config=dict(threads=1, max_block_mem=MBM[c.get('mbm', 0)]))
 
-    # fresh-run signatures per (cfg, with param)
+    # two block-memory settings: whole band, and ~8 blocks (the block-dependent models then give different pixels)
+    proc_ref = src.px <= ref.px
+    ph, pw = fusion.proc_window_shape(src, ref, proc_ref)
+    global MBM
+    MBM = [100, fusion.block_mem_for(3, ph, pw, src.px, ref.px, proc_ref)]
+    # fresh-run signatures per (cfg, block memory)
     fresh = {}
     for k in range(3):
-        d = tmp / f'fresh{k}'
-        shutil.copytree(base, d)
-        with warnings.catch_warnings():
-            warnings.simplefilter('ignore')
-            with RasterFuse(d / pair.src_path.name, d / pair.ref_path.name) as rf:
-                api_call(rf, d, dict(cfg=k, out='o.tif', param=True, overwrite=False, as_str=False))
-        fresh[k] = (sig(d / 'o.tif'), sig(d / 'o_PARAM.tif'))
+        for mi in range(2):
+            d = tmp / f'fresh{k}_{mi}'
+            shutil.copytree(base, d)
+            with warnings.catch_warnings():
+                warnings.simplefilter('ignore')
+                with RasterFuse(d / pair.src_path.name, d / pair.ref_path.name) as rf:
+                    api_call(rf, d, dict(cfg=k, mbm=mi, out='o.tif', param=True, overwrite=False, as_str=False))
+            fresh[(k, mi)] = (sig(d / 'o.tif'), sig(d / 'o_PARAM.tif'))
+    shutil.copytree(tmp / 'fresh0_0', tmp / 'fresh0')
     # the same for CLI invocations (the CLI passes its own defaults, so its tags may differ from the API call's)
     fresh_cli = {}
     from homonim import utils as hu
@@ -213,8 +223,8 @@ def run(run: common.Run):
                             ok_case = False
                             break
                         got = (sig(d / c['out']), sig(d / pname) if pname else None)
-                        fr = fresh_cli if c['via'] == 'cli' else fresh
-                        exp = (fr[c['cfg']][0], fr[c['cfg']][1] if pname else None)
+                        fr = fresh_cli[c['cfg']] if c['via'] == 'cli' else fresh[(c['cfg'], c.get('mbm', 0))]
+                        exp = (fr[0], fr[1] if pname else None)
                         if got != exp:
                             which = 'corrected' if got[0] != exp[0] else 'parameter'
                             run.fail(sub, f'call {ci}: the {which} output differs from what the same call produces in a fresh directory '
